@@ -22,7 +22,7 @@ func init() {
 	Register("C25", &Info{
 		Run:   runC25,
 		Quick: 6000, Thor: 500000,
-		Rule: "a world = one (version, cipher suite) pair negotiated by a single-suite client spec (TLS 1.3: the three suites; TLS 1.2: every documented suite (the client-only legacy ChaCha20 and EnableWeakCiphers suites have no compliant peer here, see C27); TLS 1.0/1.1: the CBC suites) against the repository or std server or (a third of the worlds) the reference server, which shapes its records in every way the RFCs allow (TLS 1.3 padding, arbitrary fragment sizes, zero-length application_data records) and under TLS 1.3 sends 2-4 NewSessionTicket messages (separately or packed into one record) and KeyUpdate messages with and without update_requested between its echo writes; then a drawn sequence of client writes (0 B .. 40 kB, record boundaries) echoed by the server and read with drawn buffer sizes (1 B .. 32 kB), by one client task or by a writer and a reader task at once under a scheduler that may switch at lock acquisitions and right after unlocks; phase 1 establishes the connection, then the scheduler arms one fault on the live connection: bit flip at a drawn offset of the next application records, truncation (clean EOF mid-record or at a record boundary), connection reset, or an on-path attacker dropping / duplicating / swapping whole records; oracle: what each side read is a prefix of what the peer wrote; without a fault it is everything; after a flip/drop/dup/swap inside the data the receiver must return an error and deliver strictly less than everything; non-trivial = >=1 application record each way (fault stratum: the fault fired before the last record); distinct = (version, suite, peer, write sizes, read sizes, fault)",
+		Rule: "a world = one (version, cipher suite) pair negotiated by a single-suite client spec (TLS 1.3: the three suites; TLS 1.2: every documented suite; the client-only legacy ChaCha20 code points and the EnableWeakCiphers suites against the reference server, which is told to select them; TLS 1.0/1.1: the CBC suites) against the repository or std server or (a third of the worlds) the reference server, which shapes its records in every way the RFCs allow (TLS 1.3 padding, arbitrary fragment sizes, zero-length application_data records) and under TLS 1.3 sends 2-4 NewSessionTicket messages (separately or packed into one record) and KeyUpdate messages with and without update_requested between its echo writes; then a drawn sequence of client writes (0 B .. 40 kB, record boundaries) echoed by the server and read with drawn buffer sizes (1 B .. 32 kB), by one client task or by a writer and a reader task at once under a scheduler that may switch at lock acquisitions and right after unlocks; phase 1 establishes the connection, then the scheduler arms one fault on the live connection: bit flip at a drawn offset of the next application records, truncation (clean EOF mid-record or at a record boundary), connection reset, or an on-path attacker dropping / duplicating / swapping whole records; oracle: what each side read is a prefix of what the peer wrote; without a fault it is everything; after a flip/drop/dup/swap inside the data the receiver must return an error and deliver strictly less than everything; non-trivial = >=1 application record each way (fault stratum: the fault fired before the last record); distinct = (version, suite, peer, write sizes, read sizes, fault)",
 		Assumptions: []string{"TLS 1.3 key updates are initiated by the reference server (sim/refsrv); client-initiated updates do not exist in this code base",
 			"EnableWeakCiphers is process-global: the C25 worker process enables it at start and never runs another property"},
 		Real: []string{"utls client record layer (UConn.Read/Write, halfConn) from /repo", "utls or std server"},
@@ -52,8 +52,13 @@ func buildSuiteCases() {
 		}
 	}
 	// The legacy ChaCha20 code points (0xcc13/0xcc14) and the EnableWeakCiphers suites (0x003d,
-	// 0xc024, 0xc028) are client-only in utls and unknown to the std server: no compliant peer
-	// in the simulator negotiates them. Their record protection is exercised by C27.
+	// 0xc024, 0xc028) are client-only in utls and unknown to the std server. The reference server
+	// (a frozen fork of the same stack with its own copy of the suite table) is told to select
+	// them (Byz.ForceSuite after refsrv.EnableWeakCiphers): a peer of shared ancestry, stated in
+	// the evidence; C27 exercises their record protection independently of any handshake.
+	for _, s := range []uint16{0xcc13, 0xcc14, 0x003d, 0xc024, 0xc028} {
+		suiteCases = append(suiteCases, suiteCase{0x0303, s, []int{PeerRef}})
+	}
 	// deterministic order
 	for i := range suiteCases {
 		for j := i + 1; j < len(suiteCases); j++ {
@@ -144,7 +149,7 @@ func (a *recordAttacker) filter(w *simrt.World, d *simnet.Dir, b []byte) [][]byt
 
 func runC25(c *Ctx) {
 	ch := c.Ch
-	weakOnce.Do(func() { tls.EnableWeakCiphers(); buildSuiteCases() })
+	weakOnce.Do(func() { tls.EnableWeakCiphers(); refsrv.EnableWeakCiphers(); buildSuiteCases() })
 	sc := suiteCases[int(c.Run)%len(suiteCases)]
 	kuStratum := c.Run%4 == 3 // TLS 1.3 with the reference server: key updates, full-duplex client
 	if kuStratum {
@@ -216,12 +221,17 @@ func runC25(c *Ctx) {
 	var rcfg *refsrv.Config
 	shape := uint64(0)
 	kuEvery, kuReq := 0, false
-	if ch.Bool(35, "ref-peer") || kuStratum {
+	forcedSuite := len(sc.peers) == 1 && sc.peers[0] == PeerRef
+	if ch.Bool(35, "ref-peer") || kuStratum || forcedSuite {
 		peer = PeerRef
 		rcfg = refCfg(auth)
 		rcfg.MaxVersion = sc.ver
 		if sc.ver < 0x0304 {
 			rcfg.CipherSuites = []uint16{sc.suite}
+		}
+		if forcedSuite {
+			rcfg.CipherSuites = nil
+			rcfg.Byz.ForceSuite = sc.suite
 		}
 		shape = ch.U64("record-shape") | 1
 		st := shape
